@@ -1582,3 +1582,145 @@ Theorem tables_are_model N :
   (forall lo d, meq N (tget (Ubc_tab N lo d)) (Ubc N lo d)) /\
   (forall lo d, meq N (tget (Ubc_inv_tab N lo d)) (Ubc_inv N lo d)).
 Proof. split; [|split]; intros; [apply DTp_tab_correct | apply Ubc_tab_correct | apply Ubc_inv_tab_correct]. Qed.
+
+(* ------------------------------------------------------------------ affine interval map: chain rule *)
+
+Lemma coef_plin a b q m : coef (plin a b q) m == a * shiftc (coef q) m + b * coef q m.
+Proof. unfold plin. rewrite coef_padd, !coef_pscale, coef_pX. reflexivity. Qed.
+
+Lemma plin_peq a b q1 q2 : peq q1 q2 -> peq (plin a b q1) (plin a b q2).
+Proof. intros H m. rewrite !coef_plin. destruct m as [|m]; cbn [shiftc]; rewrite ?(H m), ?(H (S m)), ?(H 0%nat); reflexivity. Qed.
+
+Lemma plin_pscale a b c q : peq (plin a b (pscale c q)) (pscale c (plin a b q)).
+Proof.
+  intros m. rewrite coef_pscale, !coef_plin. destruct m as [|m]; cbn [shiftc]; rewrite ?coef_pscale; ring.
+Qed.
+
+Lemma pderiv_plin a b q : peq (pderiv (plin a b q)) (padd (pscale a q) (plin a b (pderiv q))).
+Proof.
+  intros m. rewrite coef_pderiv, coef_padd, coef_pscale, !coef_plin. cbn [shiftc].
+  destruct m as [|m]; cbn [shiftc]; rewrite !coef_pderiv.
+  - rewrite Qn_S, Qn_0. ring.
+  - rewrite (Qn_S (S m)). ring.
+Qed.
+
+Lemma pderiv_linpow a b j : peq (pderiv (linpow a b (S j))) (pscale (a * Qn (S j)) (linpow a b j)).
+Proof.
+  induction j as [|j IH].
+  - intros m. cbn [linpow]. rewrite coef_pderiv, coef_pscale, coef_plin. cbn [shiftc].
+    destruct m as [|m].
+    + unfold coef. cbn [nth]. rewrite !Qn_S, Qn_0. ring.
+    + unfold coef. cbn [nth]. destruct m; ring.
+  - change (linpow a b (S (S j))) with (plin a b (linpow a b (S j))).
+    intros m. rewrite (pderiv_plin a b (linpow a b (S j)) m).
+    rewrite coef_padd, !coef_pscale.
+    rewrite (plin_peq a b _ _ IH m), (plin_pscale a b _ _ m), coef_pscale.
+    change (plin a b (linpow a b j)) with (linpow a b (S j)).
+    rewrite (Qn_S (S j)). ring.
+Qed.
+
+Lemma pderiv_linpow0 a b : peq (pderiv (linpow a b 0)) [].
+Proof. intros m. cbn [linpow]. rewrite coef_pderiv, coef_nil. unfold coef. cbn [nth]. destruct m; ring. Qed.
+
+Lemma pderiv_length p : length (pderiv p) = (length p - 1)%nat.
+Proof.
+  destruct p as [|a p]; [reflexivity|]. cbn [pderiv length].
+  assert (H : forall k, length (pderiv_from k p) = length p).
+  { induction p as [|x p IH]; intros k; cbn [pderiv_from length]; [reflexivity|]. rewrite IH. reflexivity. }
+  rewrite H. lia.
+Qed.
+
+(* chain rule for an affine substitution *)
+Lemma pderiv_pcomp_aff a b p : peq (pderiv (pcomp_aff a b p)) (pscale a (pcomp_aff a b (pderiv p))).
+Proof.
+  intros m. unfold pcomp_aff.
+  rewrite (pderiv_pseries (linpow a b) (coef p) (length p) m), coef_pscale, !coef_pseries, pderiv_length.
+  destruct (length p) as [|n] eqn:El.
+  - cbn [bigsum Nat.sub]. ring.
+  - cbn [Nat.sub]. rewrite Nat.sub_0_r, bigsum_front.
+    rewrite (pderiv_linpow0 a b m), coef_nil.
+    rewrite <- bigsum_scal.
+    setoid_replace (coef p 0 * 0) with 0 by ring. rewrite Qplus_0_l.
+    apply bigsum_ext. intros i Hi.
+    rewrite (pderiv_linpow a b i m), coef_pscale, coef_pderiv. ring.
+Qed.
+
+Lemma pcomp_aff_peq a b p q : peq p q -> peq (pcomp_aff a b p) (pcomp_aff a b q).
+Proof.
+  intros H m. unfold pcomp_aff. rewrite !coef_pseries.
+  set (n := Nat.max (length p) (length q)).
+  rewrite <- (bigsum_tail (fun j => coef p j * coef (linpow a b j) m) (length p) n)
+    by (try (unfold n; lia); intros j Hj; rewrite coef_beyond by lia; ring).
+  rewrite <- (bigsum_tail (fun j => coef q j * coef (linpow a b j) m) (length q) n)
+    by (try (unfold n; lia); intros j Hj; rewrite coef_beyond by lia; ring).
+  apply bigsum_ext. intros j Hj. rewrite (H j). reflexivity.
+Qed.
+
+Lemma pcomp_aff_pscale a b c p : peq (pcomp_aff a b (pscale c p)) (pscale c (pcomp_aff a b p)).
+Proof.
+  intros m. unfold pcomp_aff. rewrite coef_pscale, !coef_pseries. unfold pscale at 2. rewrite map_length.
+  rewrite <- bigsum_scal. apply bigsum_ext. intros j Hj. rewrite coef_pscale. ring.
+Qed.
+
+Lemma pscale_peq c p q : peq p q -> peq (pscale c p) (pscale c q).
+Proof. intros H m. rewrite !coef_pscale, (H m). reflexivity. Qed.
+
+Lemma pderiv_n_pcomp_aff a b p P :
+  peq (pderiv_n p (pcomp_aff a b P)) (pscale (Qpown a p) (pcomp_aff a b (pderiv_n p P))).
+Proof.
+  induction p as [|p IH]; cbn [pderiv_n Qpown].
+  - intros m. rewrite coef_pscale. ring.
+  - intros m. rewrite (pderiv_peq _ _ IH m).
+    rewrite (pderiv_pscale _ _ m), coef_pscale.
+    rewrite (pderiv_pcomp_aff a b (pderiv_n p P) m). rewrite !coef_pscale. ring.
+Qed.
+
+Lemma pseries_scale basis s c N : peq (pseries basis (fun j => s * c j) N) (pscale s (pseries basis c N)).
+Proof. intros m. rewrite coef_pscale, !coef_pseries, <- bigsum_scal. apply bigsum_ext. intros j Hj. ring. Qed.
+
+Lemma Qpown_inv a p : ~ a == 0 -> Qpown (/ a) p == / Qpown a p.
+Proof.
+  intros Ha. induction p as [|p IH]; cbn [Qpown]; [reflexivity|]. rewrite IH.
+  assert (Hp : ~ Qpown a p == 0).
+  { clear IH. induction p as [|p IHp]; cbn [Qpown]; [discriminate|]. intro E. apply Qmult_integral in E. tauto. }
+  field. auto.
+Qed.
+
+(* the operator the code returns on [x0, x1] (D^p / fac^p) differentiates the MAPPED series:
+   with y = fac x + off,  q(y) = sum_j c_j T_j((y - off)/fac)  has  q^(p)(y) = sum_k (D^p c / fac^p)_k T_k((y - off)/fac) *)
+Theorem cheb_diff_mapped N c fac off p : ~ fac == 0 ->
+  peq (pderiv_n p (pcomp_aff (/ fac) (- off / fac) (pseries chebT c N)))
+      (pcomp_aff (/ fac) (- off / fac) (pseries chebT (mv N (DTp N fac p) c) N)).
+Proof.
+  intros Hf.
+  eapply (@Equivalence_Transitive _ _ peq_Equivalence); [apply pderiv_n_pcomp_aff|].
+  eapply (@Equivalence_Transitive _ _ peq_Equivalence);
+    [apply pscale_peq, pcomp_aff_peq, cheb_diff_p_correct|].
+  eapply (@Equivalence_Transitive _ _ peq_Equivalence); [apply (@Equivalence_Symmetric _ _ peq_Equivalence), pcomp_aff_pscale|].
+  apply pcomp_aff_peq.
+  eapply (@Equivalence_Transitive _ _ peq_Equivalence); [apply (@Equivalence_Symmetric _ _ peq_Equivalence), pseries_scale|].
+  apply pseries_ext. intros k Hk. unfold mv, DTp. rewrite <- bigsum_scal. apply bigsum_ext. intros j Hj.
+  rewrite Qpown_inv by exact Hf. unfold Qdiv. ring.
+Qed.
+
+(* values: (p o aff)(y) = p(a y + b) *)
+Lemma peval_plin a b q x : peval (plin a b q) x == (a * x + b) * peval q x.
+Proof. unfold plin. rewrite peval_padd, !peval_pscale, peval_pX. ring. Qed.
+Lemma peval_linpow a b j x : peval (linpow a b j) x == qpow (a * x + b) j.
+Proof.
+  induction j as [|j IH]; cbn [linpow qpow].
+  - rewrite peval_cons, peval_nil. ring.
+  - rewrite peval_plin, IH. reflexivity.
+Qed.
+Lemma peval_as_sum p x : peval p x == bigsum (fun j => coef p j * qpow x j) (length p).
+Proof.
+  induction p as [|c0 p IH]; [reflexivity|].
+  rewrite peval_cons. cbn [length]. rewrite bigsum_front. unfold coef at 1. cbn [nth qpow].
+  rewrite IH, <- bigsum_scal. apply Qplus_comp; [ring|]. apply bigsum_ext. intros j Hj.
+  unfold coef. cbn [nth qpow]. ring.
+Qed.
+Theorem peval_pcomp_aff a b p y : peval (pcomp_aff a b p) y == peval p (a * y + b).
+Proof.
+  unfold pcomp_aff. rewrite peval_pseries, (peval_as_sum p (a * y + b)).
+  apply bigsum_ext. intros j Hj. rewrite peval_linpow. reflexivity.
+Qed.
